@@ -119,42 +119,61 @@ def q(s):
     return '"' + s.replace("\\", "\\\\").replace('"', '\\"') + '"'
 
 
+def render_default(schema_list):
+    return "config_version: \"1.0\"\nschema_list:\n" + "".join("  - schema: %s\n" % s for s in schema_list)
+
+
+def render_schema(sid, s):
+    t = "schema:\n  schema_id: %s\n  name: %s\n  version: \"1.0\"\n" % (sid, sid.upper())
+    if s.get("deps"):
+        t += "  dependencies:\n" + "".join("    - %s\n" % d for d in s["deps"])
+    t += ("engine:\n  processors:\n    - speller\n    - express_editor\n  segmentors:\n    - abc_segmentor\n"
+          "  translators:\n    - script_translator\n")
+    if s.get("pad") is not None:
+        t += "notes:\n" + "".join("  - %s\n" % x for x in s["pad"])
+    t += "speller:\n  alphabet: abcdefghijklmnopqrstuvwxyz\n"
+    if s.get("algebra"):
+        t += "  algebra:\n" + "".join("    - %s\n" % q(a) for a in s["algebra"])
+    t += "translator:\n  dictionary: %s\n" % s["dict"]
+    if s.get("prism"):
+        t += "  prism: %s\n" % s["prism"]
+    if s.get("packs"):
+        t += "  packs:\n" + "".join("    - %s\n" % p for p in s["packs"])
+    return t
+
+
+def render_dict(name, d):
+    t = "---\nname: %s\nversion: \"1\"\nsort: %s\n" % (name, d.get("sort", "by_weight"))
+    if d.get("imports"):
+        t += "import_tables:\n" + "".join("  - %s\n" % i for i in d["imports"])
+    if d.get("vocabulary"):
+        t += "vocabulary: %s\n" % d["vocabulary"]
+    t += "...\n\n"
+    for text, code, w in d["rows"]:
+        t += text + "\t" + code + ("" if w is None else "\t%d" % w) + "\n"
+    return t
+
+
 def render(state):
     """state -> {relative path: text}.  state keys:
     schema_list [ids]; schemas {id: {dict, prism?, packs[], algebra[], deps[], pad?}};
     dicts {name: {rows[(text, code, weight|None)], imports[], vocabulary?: name, sort?}};
     custom {id|'default': {path: value}} (rendered as <id>.custom.yaml patch, in user/);
-    vocab {name: [(text, weight)]} (rendered as shared/<name>.txt)."""
+    vocab {name: [(text, weight)]} (rendered as shared/<name>.txt);
+    user_default [ids] / user_schemas {id: ...} / user_dicts {name: ...}: copies in the user
+    directory that shadow the shared files of the same name (the resolvers look there first)."""
     files = {}
-    lst = "".join("  - schema: %s\n" % s for s in state["schema_list"])
-    files["shared/default.yaml"] = "config_version: \"1.0\"\nschema_list:\n" + lst
+    files["shared/default.yaml"] = render_default(state["schema_list"])
     for sid, s in state["schemas"].items():
-        t = "schema:\n  schema_id: %s\n  name: %s\n  version: \"1.0\"\n" % (sid, sid.upper())
-        if s.get("deps"):
-            t += "  dependencies:\n" + "".join("    - %s\n" % d for d in s["deps"])
-        t += ("engine:\n  processors:\n    - speller\n    - express_editor\n  segmentors:\n    - abc_segmentor\n"
-              "  translators:\n    - script_translator\n")
-        if s.get("pad") is not None:
-            t += "notes:\n" + "".join("  - %s\n" % x for x in s["pad"])
-        t += "speller:\n  alphabet: abcdefghijklmnopqrstuvwxyz\n"
-        if s.get("algebra"):
-            t += "  algebra:\n" + "".join("    - %s\n" % q(a) for a in s["algebra"])
-        t += "translator:\n  dictionary: %s\n" % s["dict"]
-        if s.get("prism"):
-            t += "  prism: %s\n" % s["prism"]
-        if s.get("packs"):
-            t += "  packs:\n" + "".join("    - %s\n" % p for p in s["packs"])
-        files["shared/%s.schema.yaml" % sid] = t
+        files["shared/%s.schema.yaml" % sid] = render_schema(sid, s)
     for name, d in state["dicts"].items():
-        t = "---\nname: %s\nversion: \"1\"\nsort: %s\n" % (name, d.get("sort", "by_weight"))
-        if d.get("imports"):
-            t += "import_tables:\n" + "".join("  - %s\n" % i for i in d["imports"])
-        if d.get("vocabulary"):
-            t += "vocabulary: %s\n" % d["vocabulary"]
-        t += "...\n\n"
-        for text, code, w in d["rows"]:
-            t += text + "\t" + code + ("" if w is None else "\t%d" % w) + "\n"
-        files["shared/%s.dict.yaml" % name] = t
+        files["shared/%s.dict.yaml" % name] = render_dict(name, d)
+    if state.get("user_default") is not None:
+        files["user/default.yaml"] = render_default(state["user_default"])
+    for sid, s in state.get("user_schemas", {}).items():
+        files["user/%s.schema.yaml" % sid] = render_schema(sid, s)
+    for name, d in state.get("user_dicts", {}).items():
+        files["user/%s.dict.yaml" % name] = render_dict(name, d)
     for cid, patch in state.get("custom", {}).items():
         t = "patch:\n"
         for k, v in patch.items():
